@@ -273,7 +273,52 @@ var c18Tokens = []string{"package", "interface", "struct", "enum", "end", "fn", 
 	"->", "//uid:", "//", "<", ">", "Vec<", "Map<", "Tuple<", "int32", "str", "any", "obj", "unknown", "bool",
 	"float64", "uint8", "x", "Point", "List<double>", "a", "_b", "1", "=", "\n", "\n", "\t", " ", "é", "\x00", "."}
 
+// texts in the style a person writes: every construct of the grammar that GenerateIDL never emits
+// (enumerations with constants, comments, blank lines, several packages' worth of declarations)
+var c18HandWritten = []string{
+	"package demo\n\nenum Color\n\tred = 1\n\tgreen = 2\n\tblue = 3\nend\n\nstruct Pixel\n\tx: int32\n\ty: int32\n\tc: Color\nend\n\ninterface Screen\n\tfn set(p: Pixel) -> bool //uid:100\n\tfn get(x: int32, y: int32) -> Pixel //uid:101\n\tsig changed(p: Pixel) //uid:102\n\tprop background(c: Color) //uid:103\nend\n",
+	"package demo // a comment\n// another\nenum Level\n\tlow = 0\n\thigh = 65535\n\tnegative = -1\nend\ninterface Meter\n\tfn level() -> Level //uid:100\n\tfn levels() -> Vec<Level> //uid:101\n\tfn byLevel() -> Map<Level,str> //uid:102\nend\n",
+	"enum Alone\n\ta = 1\nend\n",
+	"package p\nstruct Key\n\ta: int32\n\tb: str\nend\ninterface Index\n\tfn find(m: Map<Key,float64>) -> Vec<Tuple<Key,bool>> //uid:100\n\tsig hit(k: Key, n: uint64) //uid:101\nend\n",
+}
+
+var c18Numbers = []string{"0", "-1", "1", "255", "65536", "2147483647", "2147483648", "4294967295", "4294967296",
+	"9223372036854775807", "9223372036854775808", "-9223372036854775808", "-9223372036854775809",
+	"18446744073709551615", "18446744073709551616", "340282366920938463463374607431768211456", "00", "0x10", "1e9", "-", "1.5"}
+
+// c18NumberMutation replaces one integer literal of a text (enum constant, uid) by a boundary number.
+func c18NumberMutation(rng *rand.Rand, text string) (string, bool) {
+	b := []byte(text)
+	var spans [][2]int
+	for i := 0; i < len(b); {
+		if b[i] >= '0' && b[i] <= '9' && (i == 0 || !(b[i-1] >= 'a' && b[i-1] <= 'z' || b[i-1] >= 'A' && b[i-1] <= 'Z' || b[i-1] == '_' || b[i-1] >= '0' && b[i-1] <= '9')) {
+			j := i
+			for j < len(b) && b[j] >= '0' && b[j] <= '9' {
+				j++
+			}
+			st := i
+			if st > 0 && b[st-1] == '-' {
+				st--
+			}
+			spans = append(spans, [2]int{st, j})
+			i = j
+		} else {
+			i++
+		}
+	}
+	if len(spans) == 0 {
+		return text, false
+	}
+	sp := spans[rng.Intn(len(spans))]
+	return string(b[:sp[0]]) + c18Numbers[rng.Intn(len(c18Numbers))] + string(b[sp[1]:]), true
+}
+
 func c18Mutate(rng *rand.Rand, corpus []string) (string, string) {
+	if rng.Intn(8) == 0 {
+		if t, ok := c18NumberMutation(rng, corpus[rng.Intn(len(corpus))]); ok {
+			return t, "number-mutation"
+		}
+	}
 	switch rng.Intn(10) {
 	case 0: // token soup
 		n := rng.Intn(40)
@@ -351,6 +396,10 @@ func c18MutateMain(args []string) {
 	if len(corpus) == 0 {
 		hlib.Fatal("empty corpus")
 	}
+	// one hand-written text for every twenty generated ones
+	for i, k := 0, len(corpus)/20+len(c18HandWritten); i < k; i++ {
+		corpus = append(corpus, c18HandWritten[i%len(c18HandWritten)])
+	}
 	n, _ := strconv.Atoi(args[1])
 	rng := rand.New(rand.NewSource(hlib.Seed()))
 	out, err := os.Create(args[2])
@@ -380,6 +429,23 @@ func c18MutateMain(args []string) {
 		w("package p\ninterface I\n"+strings.Repeat("\tfn f(a: int32) //uid:100\n", d)+"end\n", "many-declarations")
 		w("package p\ninterface I\n\tfn f("+strings.Repeat("a: int32,", d)+"b: str)\nend\n", "long-line")
 		w("package p //"+strings.Repeat("x", d*10)+"\n", "long-line")
+	}
+	for _, t := range c18HandWritten {
+		w(t, "hand-written")
+		for _, nb := range c18Numbers {
+			// every literal position x every boundary number
+			b := []byte(t)
+			for i := 0; i < len(b); i++ {
+				if b[i] >= '0' && b[i] <= '9' && i > 0 && (b[i-1] == ' ' || b[i-1] == ':') {
+					j := i
+					for j < len(b) && b[j] >= '0' && b[j] <= '9' {
+						j++
+					}
+					w(string(b[:i])+nb+string(b[j:]), "number-boundary")
+					i = j
+				}
+			}
+		}
 	}
 	w("package p\nstruct A\n\ta: A\nend\ninterface I\n\tfn f(a: A) -> A\nend\n", "recursive-struct")
 	w("package p\nstruct A\n\tb: B\nend\nstruct B\n\ta: A\nend\ninterface I\n\tfn f(a: A) -> B\nend\n", "recursive-struct")
